@@ -1004,3 +1004,309 @@ def check_s8(rep, idx):
         rep.violation(Finding("S8", "Spline::arclength", "integrand", "velocity polynomial passed as %s; d/du (a0+a1 u+a2 u^2+a3 u^3) has coefficients (3 a3, 2 a2, a1)" % pat, f, l))
     elif not okc:
         rep.broke("S8: coefficient matrix in arclength is no longer kMappedBasisFunction<K>.rightCols(K) * m_Vs[i].transpose(); re-derive the integrand rule")
+
+
+# ---- X1: derivative recursion of the cumulative product, in a free Lie-algebra normal form ------------------------
+
+class XErr(Exception):
+    pass
+
+
+def _smul(c1, c2):
+    """product of scalar polynomials {monomial tuple: Fraction}"""
+    out = {}
+    for m1, a in c1.items():
+        for m2, b in c2.items():
+            m = tuple(sorted(m1 + m2))
+            out[m] = out.get(m, 0) + a * b
+    return {m: c for m, c in out.items() if c != 0}
+
+
+def _ladd(x, y, sign=1):
+    out = dict(x)
+    for t, c in y.items():
+        cur = dict(out.get(t, {}))
+        for m, a in c.items():
+            cur[m] = cur.get(m, 0) + sign * a
+        cur = {m: a for m, a in cur.items() if a != 0}
+        if cur:
+            out[t] = cur
+        elif t in out:
+            del out[t]
+    return out
+
+
+def _lscale(x, c):
+    out = {}
+    for t, ct in x.items():
+        p = _smul(ct, c)
+        if p:
+            out[t] = p
+    return out
+
+
+def _lbr(x, y):
+    out = {}
+    for tx, cx in x.items():
+        for ty, cy in y.items():
+            if tx == ty:
+                continue                      # [a, a] = 0
+            out = _ladd(out, {("br", tx, ty): _smul(cx, cy)})
+    return out
+
+
+def _lapp(kind, x):
+    return {("T", kind, t): c for t, c in x.items()}
+
+
+ONE = {(): Fraction(1)}
+
+
+def check_x1(rep, idx_cs):
+    rep.rule("X1", "cspline_eval_vs: vel/acc/jerk follow the body-derivative recursion of the cumulative product (free Lie-algebra normal form)", minimum=3)
+    fns = funcs(idx_cs, "cspline_eval_vs")
+    if len(fns) != 1:
+        rep.broke("X1: cspline_eval_vs not found")
+        return
+    d = fns[0]
+    b = A.body(d.node)
+    loops = [x for x in A.kids(b) if x.get("kind") == "CXXForRangeStmt"]
+    if len(loops) != 1:
+        rep.broke("X1: expected one range-for over the difference vectors in cspline_eval_vs")
+        return
+    # derivative order of the monomial rows
+    order_of = {}
+    for x in A.walk(b):
+        if x.get("kind") == "VarDecl" and A.kids(x):
+            t = A.ntext(A.kids(x)[-1])
+            m = re.search(r"U\[(\d)\]\.data\(\)", t)
+            if m:
+                order_of[x.get("name")] = int(m.group(1))
+    if sorted(order_of.values()) != [0, 1, 2, 3]:
+        rep.broke("X1: rows of the monomial-derivative table not identified (%s)" % order_of)
+        return
+    # loop variable names (structured binding [j, vj])
+    lv = [k.get("name") for x in A.walk(loops[0]) if x.get("kind") == "DecompositionDecl" for k in A.kids(x) if k.get("kind") == "BindingDecl"]
+    if len(lv) != 2:
+        rep.broke("X1: loop over zip(iota, vs) with bindings [j, vj] not recognised")
+        return
+    jn, vn = lv
+    scal = {}      # name -> scalar polynomial
+    lie = {}       # name -> lie normal form
+    grp = {}       # name -> ('exp', sign) group element exp(+-B0 v)
+    trans = {}     # name -> transport kind
+    state = {"vel": {("vel0",): ONE}, "acc": {("acc0",): ONE}, "jer": {("jer0",): ONE}}
+    state = {k: {next(iter(v))[0] if False else k + "0": ONE} for k, v in state.items()}
+
+    def sc(e):
+        if e[0] == "num":
+            return {(): Fraction(e[1])}
+        if e[0] == "ref" and e[1] in scal:
+            return scal[e[1]]
+        if e[0] == "op" and e[1] == "*":
+            return _smul(sc(e[2]), sc(e[3]))
+        if e[0] == "neg":
+            return _smul({(): Fraction(-1)}, sc(e[1]))
+        raise XErr("scalar %s" % A.show(e)[:50])
+
+    def is_scalar(e):
+        try:
+            sc(e)
+            return True
+        except XErr:
+            return False
+
+    def target(e):
+        """'vel'|'acc'|'jer' if e is X.value() / *X / X.value().noalias()"""
+        t = re.sub(r"\s", "", A.show(e))
+        m = re.match(r"^(vel|acc|jer)(\.value\(\))?(\.noalias\(\))?$", t)
+        return m.group(1) if m else None
+
+    def lv_(e):
+        if e[0] == "ref" and e[1] == vn:
+            return {"v": ONE}
+        if e[0] == "ref" and e[1] in lie:
+            return lie[e[1]]
+        tg = target(e)
+        if tg:
+            return state[tg]
+        if e[0] == "op" and e[1] == "*":
+            # ad(X) * Y  |  scalar * Lie | Lie * scalar | (scalar * ad(X)) * Y
+            l, r = e[2], e[3]
+            if l[0] == "call" and str(l[1]).split("::")[-1].split("<")[0] == "ad" and len(l[2]) == 1:
+                return _lbr(lv_(l[2][0]), lv_(r))
+            if l[0] == "op" and l[1] == "*" and l[3][0] == "call" and str(l[3][1]).split("::")[-1].split("<")[0] == "ad" and is_scalar(l[2]):
+                return _lscale(_lbr(lv_(l[3][2][0]), lv_(r)), sc(l[2]))
+            if is_scalar(l):
+                return _lscale(lv_(r), sc(l))
+            if is_scalar(r):
+                return _lscale(lv_(l), sc(r))
+        if e[0] == "op" and e[1] in ("+", "-"):
+            return _ladd(lv_(e[2]), lv_(e[3]), 1 if e[1] == "+" else -1)
+        if e[0] == "neg":
+            return _lscale(lv_(e[1]), {(): Fraction(-1)})
+        raise XErr("Lie-algebra expression %s" % A.show(e)[:60])
+
+    def gv(e):
+        """group element: exp(s * B0 * v)"""
+        if e[0] == "ref" and e[1] in grp:
+            return grp[e[1]]
+        if e[0] == "call" and str(e[1]).split("::")[-1].split("<")[0] == "exp" and len(e[2]) == 1:
+            a = lv_(e[2][0])
+            if set(a) == {"v"} and a["v"] in ({("B0",): Fraction(1)}, {("B0",): Fraction(-1)}):
+                return ("exp", int(next(iter(a["v"].values()))))
+            raise XErr("exp of %s" % a)
+        if e[0] == "call" and str(e[1]).split("::")[-1].split("<")[0] == "inverse" and len(e[2]) == 1:
+            g = gv(e[2][0])
+            return ("exp", -g[1])
+        raise XErr("group expression %s" % A.show(e)[:50])
+
+    def tv(e):
+        if e[0] == "ref" and e[1] in trans:
+            return trans[e[1]]
+        if e[0] == "call" and str(e[1]).split("::")[-1].split("<")[0] == "Ad" and len(e[2]) == 1:
+            g = gv(e[2][0])
+            return "Ad(exp(-B v))" if g[1] == -1 else "Ad(exp(+B v))"
+        if e[0] == "mcall" and e[2] in ("inverse", "transpose") and not e[4]:
+            inner = tv(e[1])
+            if e[2] == "inverse":
+                return {"Ad(exp(-B v))": "Ad(exp(+B v))", "Ad(exp(+B v))": "Ad(exp(-B v))"}.get(inner, inner + "^-1")
+            return inner + "^T"
+        raise XErr("transport operator %s" % A.show(e)[:50])
+
+    value_steps = []
+
+    def run(node):
+        for s in A.kids(node):
+            k = s.get("kind")
+            if k == "DeclStmt":
+                for v in A.kids(s):
+                    if v.get("kind") != "VarDecl" or not A.kids(v):
+                        continue
+                    e = A.to_expr(A.kids(v)[-1])
+                    nm = v.get("name")
+                    t = re.sub(r"\s", "", A.show(e))
+                    m = re.match(r"^(\w+)\.dot\(Bcum\.col\((\w+)\)\)$", t)
+                    if m and m.group(1) in order_of and m.group(2) == jn:
+                        scal[nm] = {("B%d" % order_of[m.group(1)],): Fraction(1)}
+                        continue
+                    for fn_, store in ((gv, grp), (tv, trans), (lv_, lie)):
+                        try:
+                            store[nm] = fn_(e)
+                            break
+                        except XErr:
+                            continue
+                    else:
+                        raise XErr("declaration %s = %s" % (nm, A.show(e)[:60]))
+            elif k == "IfStmt":
+                c = A.to_expr(A.kids(s)[0])
+                if not (c[0] == "mcall" and c[2] == "has_value"):
+                    raise XErr("condition %s" % A.show(c))
+                run(A.kids(s)[1])
+            elif k == "CompoundStmt":
+                run(s)
+            elif k in ("CallExpr", "CXXMemberCallExpr"):
+                e = A.to_expr(s)
+                if e[0] == "mcall" and e[2] == "applyOnTheLeft" and target(e[1]) and len(e[4]) == 1:
+                    tg = target(e[1])
+                    state[tg] = _lapp(tv(e[4][0]), state[tg])
+                else:
+                    raise XErr("statement %s" % A.show(e)[:60])
+            elif k in ("CompoundAssignOperator", "BinaryOperator", "CXXOperatorCallExpr"):
+                e = A.to_expr(s)
+                if e[0] == "op" and e[1] in ("+=", "-=") and target(e[2]):
+                    tg = target(e[2])
+                    state[tg] = _ladd(state[tg], lv_(e[3]), 1 if e[1] == "+=" else -1)
+                elif e[0] == "op" and e[1] == "=" and e[2][0] == "ref" and e[2][1] == "g":
+                    r = e[3]
+                    okv = (r[0] == "call" and str(r[1]).split("::")[-1].split("<")[0] == "composition" and len(r[2]) == 2
+                           and r[2][0][0] == "ref" and r[2][0][1] == "g")
+                    if okv:
+                        try:
+                            okv = gv(r[2][1]) == ("exp", 1)
+                        except XErr:
+                            okv = False
+                    value_steps.append((okv, A.show(e)[:80], s))
+                else:
+                    raise XErr("statement %s" % A.show(e)[:60])
+            else:
+                raise XErr("statement kind %s" % k)
+
+    try:
+        run(A.kids(loops[0])[-1])
+    except XErr as ex:
+        rep.broke("X1: cannot abstract the derivative recursion of cspline_eval_vs: %s" % ex)
+        return
+    # value: g starts at the identity and is right-multiplied by exp(B_j v_j) for j = 1..K (column 0 of the cumulative basis is the
+    # constant 1 belonging to the anchor)
+    ginit = None
+    for x in A.kids(b):
+        if x.get("kind") == "DeclStmt":
+            for v_ in A.kids(x):
+                if v_.get("kind") == "VarDecl" and v_.get("name") == "g" and A.kids(v_):
+                    ginit = A.to_expr(A.kids(v_)[-1])
+    rng = None
+    for c in A.kids(loops[0]):
+        if c.get("kind") == "DeclStmt":
+            for v_ in A.kids(c):
+                if (v_.get("name") or "").startswith("__range") and A.kids(v_):
+                    rng = re.sub(r"\s", "", A.show(A.to_expr(A.kids(v_)[-1])))
+    okval = (ginit is not None and ginit[0] == "call" and str(ginit[1]).split("::")[-1].split("<")[0] == "Identity"
+             and len(value_steps) == 1 and value_steps[0][0] and rng is not None and re.search(r"zip\(.*iota[\[(]1[\])].*,vs\)", rng) is not None)
+    rep.instance("X1", "cspline_eval_vs", "value", ok=okval, sample={"file": fe.rel(d.file), "line": d.line, "range": rng,
+                                                                      "step": value_steps[0][1] if value_steps else None})
+    if not okval:
+        rep.violation(Finding("X1", "cspline_eval_vs", "value",
+                              "the curve value is not Identity * prod_{j=1..K} exp(Bcum_j(u) v_j) accumulated by right-multiplication "
+                              "(init=%s, range=%s, step=%s)" % (A.show(ginit)[:40] if ginit else None, rng, value_steps[0][1] if value_steps else None),
+                              d.file, d.line))
+    T = "Ad(exp(-B v))"
+    B1, B2, B3 = ({("B%d" % i,): Fraction(1)} for i in (1, 2, 3))
+    v = {"v": ONE}
+    vel0, acc0, jer0 = ({n: ONE} for n in ("vel0", "acc0", "jer0"))
+    vel1 = _ladd(_lapp(T, vel0), _lscale(v, B1))
+    acc1 = _ladd(_ladd(_lapp(T, acc0), _lscale(_lbr(vel1, v), B1)), _lscale(v, B2))
+    jer1 = _lapp(T, jer0)
+    jer1 = _ladd(jer1, _lscale(_lbr(acc1, v), _smul({(): Fraction(2)}, B1)))
+    jer1 = _ladd(jer1, _lscale(_lbr(_lbr(vel1, v), v), _smul(B1, B1)), -1)
+    jer1 = _ladd(jer1, _lscale(_lbr(vel1, v), B2))
+    jer1 = _ladd(jer1, _lscale(v, B3))
+
+    def fmt_t(t):
+        if isinstance(t, tuple):
+            if t[0] == "br":
+                return "[%s, %s]" % (fmt_t(t[1]), fmt_t(t[2]))
+            if t[0] == "T":
+                return "%s*%s" % (t[1], fmt_t(t[2]))
+        return str(t)
+
+    def fmt(x):
+        parts = []
+        for t, c in sorted(x.items(), key=lambda kv: fmt_t(kv[0])):
+            cs = " + ".join("%s%s" % (("%s*" % a) if a != 1 else "", "*".join(m) or "1") for m, a in sorted(c.items()))
+            parts.append("(%s) %s" % (cs, fmt_t(t)))
+        return " + ".join(parts) or "0"
+    for name, got, want, what in (("vel", state["vel"], vel1, "w_j = Ad(exp(-B_j v_j)) w_{j-1} + B_j' v_j"),
+                                  ("acc", state["acc"], acc1, "a_j = Ad a_{j-1} + B_j' [w_j, v_j] + B_j'' v_j"),
+                                  ("jer", state["jer"], jer1, "j_j = Ad j_{j-1} + 2 B' [a_j, v] - B'^2 [[w_j, v], v] + B'' [w_j, v] + B''' v")):
+        ok = got == want
+        rep.instance("X1", "cspline_eval_vs", name, ok=ok, sample={"file": fe.rel(d.file), "line": d.line, "recursion": what, "normal_form": fmt(got)[:300]})
+        if not ok:
+            rep.violation(Finding("X1", "cspline_eval_vs", name,
+                                  "the %s update is %s ; the body-derivative recursion of g = prod exp(B_j v_j) is %s, i.e. %s"
+                                  % (name, fmt(got)[:260], what, fmt(want)[:260]), d.file, d.line))
+    # cspline_eval_gs anchors the same curve at g_0 with v_i = g_i (-) g_{i-1}
+    gs = funcs(idx_cs, "cspline_eval_gs")
+    if len(gs) == 1:
+        t = A.ntext(A.body(gs[0].node))
+        sub_ok = re.search(r"sub=\[\]\(constauto&x1,constauto&x2\)\{returnrminus\(x2,x1\);\}", t) is not None
+        vs_ok = "vs=gs|utils::views::pairwise_transform(sub)" in t
+        ret_ok = re.search(r"returncomposition\(\*std::ranges::begin\(gs\),cspline_eval_vs<K,G>\(vs,Bcum,u,vel,acc,jer\)\);", t) is not None
+        ok = sub_ok and vs_ok and ret_ok
+        rep.instance("X1", "cspline_eval_gs", "anchoring", ok=ok, nontrivial=True, sample={"file": fe.rel(gs[0].file), "line": gs[0].line})
+        if not ok:
+            rep.violation(Finding("X1", "cspline_eval_gs", "anchoring",
+                                  "cspline_eval_gs is not g_0 * cspline_eval_vs(v_i = g_i (-) g_{i-1}) with all derivative outputs forwarded "
+                                  "(differences=%s, pairwise=%s, anchored product=%s)" % (sub_ok, vs_ok, ret_ok), gs[0].file, gs[0].line))
+    else:
+        rep.broke("X1: cspline_eval_gs not found")
